@@ -12,6 +12,44 @@ fn dump(h: &SparseMatrix) -> String {
     format!("{} {} {} {}", h.num_rows(), h.num_cols(), ll(&cols_of(h)), ll(&rows_of(h)))
 }
 
+/// Runs `f` in a forked child with a CPU-time alarm; its string result comes back through a pipe.  "timeout" if the
+/// child is killed by the alarm (e.g. the encoder fell back to dense elimination on a 64800-column matrix), "abort" if it dies otherwise.
+pub fn with_time_limit<F: FnOnce() -> String>(secs: u32, f: F) -> String {
+    unsafe {
+        let mut fds = [0i32; 2];
+        if libc::pipe(fds.as_mut_ptr()) != 0 {
+            return f();
+        }
+        let pid = libc::fork();
+        if pid == 0 {
+            libc::close(fds[0]);
+            libc::alarm(secs);
+            let s = f();
+            let b = s.as_bytes();
+            let _ = libc::write(fds[1], b.as_ptr() as *const libc::c_void, b.len());
+            libc::_exit(0);
+        }
+        libc::close(fds[1]);
+        let mut out = Vec::new();
+        let mut buf = [0u8; 4096];
+        loop {
+            let n = libc::read(fds[0], buf.as_mut_ptr() as *mut libc::c_void, buf.len());
+            if n <= 0 { break; }
+            out.extend_from_slice(&buf[..n as usize]);
+        }
+        libc::close(fds[0]);
+        let mut status = 0;
+        libc::waitpid(pid, &mut status, 0);
+        if libc::WIFEXITED(status) && libc::WEXITSTATUS(status) == 0 {
+            String::from_utf8_lossy(&out).to_string()
+        } else if libc::WIFSIGNALED(status) && libc::WTERMSIG(status) == libc::SIGALRM {
+            "timeout".to_string()
+        } else {
+            "abort".to_string()
+        }
+    }
+}
+
 /// `Encoder::from_h` must accept the matrix; encode random messages; returns (kind, all syndromes zero)
 pub fn encoder_accepts(h: &SparseMatrix, rng: &mut crate::rng::Rng, nmsg: usize) -> String {
     let h2 = h.clone();
@@ -45,7 +83,12 @@ pub fn run_c06(ctx: &mut Ctx, _replay: Option<&[String]>) {
         let name = format!("{:?}", code);
         let h = code.h();
         let girth = if name == "R1_2" || (ctx.thorough && name == "R1_2short") { format!("{:?}", h.girth_with_max(6)) } else { "-".into() };
-        enc.push(format!("{}={},girth<=6:{}", name, encoder_accepts(&h, &mut rng, 3), girth));
+        // the staircase encoder is linear-time; 300 s of CPU is orders of magnitude more than it needs on 64800 columns
+        let seed = rng.next();
+        let hh = h.clone();
+        let acc = with_time_limit(300, move || { let mut r = crate::rng::Rng::new(seed, 6); encoder_accepts(&hh, &mut r, 3) });
+        ctx.emit(&format!("c06 enc {}", name), &format!("{} {}", acc, girth.replace(' ', "")), true, &["encoder-acceptance-and-girth"]);
+        enc.push(format!("{}={},girth<=6:{}", name, acc, girth));
         ctx.emit(&format!("c06 {}", name), &dump(&h), true, &[if name.ends_with("short") { "short-frame" } else { "normal-frame" }]);
     }
     ctx.extra.insert("encoder_and_girth".into(), enc.join(" "));
@@ -69,15 +112,23 @@ pub fn run_c07(ctx: &mut Ctx, _replay: Option<&[String]>) {
             let h = ccsds::AR4JACode::new(rate, size).h();
             // dense elimination is O(r^2 n): only the k = 1024 codes in quick, k = 4096 in thorough
             if k == 1024 || (k == 4096 && ctx.thorough) {
-                enc.push(format!("{:?}/{}={}", rate, k, encoder_accepts(&h, &mut rng, 2)));
+                let seed = rng.next();
+                let hh = h.clone();
+                let acc = with_time_limit(3600, move || { let mut r = crate::rng::Rng::new(seed, 7); encoder_accepts(&hh, &mut r, 2) });
+                ctx.emit(&format!("c07 enc {:?} {}", rate, k), &acc, true, &["encoder-acceptance"]);
+                enc.push(format!("{:?}/{}={}", rate, k, acc));
             }
             let girth = if format!("{:?}", rate) == "R1_2" && k == 1024 { format!("{:?}", h.girth_with_max(6)) } else { "-".into() };
+            if girth != "-" {
+                ctx.emit(&format!("c07 girth ar4ja-{:?}-{}", rate, k), &girth.replace(' ', ""), true, &["documented-girth"]);
+            }
             enc.push(format!("{:?}/{}:girth<=6:{}", rate, k, girth));
             ctx.emit(&format!("c07 ar4ja {:?} {}", rate, k), &dump_rows_sorted_cols(&h), true, &["ar4ja"]);
         }
     }
     let h = ccsds::C2Code::new().h();
     enc.push(format!("C2:girth<=6:{:?}", h.girth_with_max(6)));
+    ctx.emit("c07 girth c2", &format!("{:?}", h.girth_with_max(6)).replace(' ', ""), true, &["documented-girth"]);
     ctx.emit("c07 c2", &dump_rows_sorted_cols(&h), true, &["c2"]);
     ctx.extra.insert("encoder_and_girth".into(), enc.join(" "));
 }
